@@ -1275,7 +1275,7 @@ func c27History(t *rapid.T) {
 	steps := rapid.IntRange(4, verifkit.Scale(14, 20)).Draw(t, "steps")
 	for i := 0; i < steps; i++ {
 		act := rapid.SampledFrom([]string{"add", "add", "add", "run", "run", "run", "run", "run", "vanishSpoke", "compactSpoke", "compactSpoke",
-			"compactHub", "vanishHub", "sweepStaging", "foreign", "requeue", "dismiss", "restart", "prune", "staleConfirm", "staleConfirm", "resumeSplice", "resumeSplice", "strandInFlight", "strandInFlight", "staleBatch", "staleBatch"}).Draw(t, "action")
+			"compactHub", "vanishHub", "sweepStaging", "foreign", "requeue", "dismiss", "restart", "prune", "staleConfirm", "staleConfirm", "resumeSplice", "resumeSplice", "strandInFlight", "strandInFlight", "staleBatch", "staleBatch", "transferConflict"}).Draw(t, "action")
 		switch act {
 		case "add":
 			for j, n := 0, rapid.IntRange(1, 3).Draw(t, "nFiles"); j < n; j++ {
@@ -1324,6 +1324,15 @@ func c27History(t *rapid.T) {
 			r.strandInFlight(t)
 		case "staleBatch":
 			r.staleBatch(t)
+		case "transferConflict":
+			// a conflict the hub can only discover DURING the transfer: different bytes sit
+			// at the path, the receipt index knows nothing about them
+			if f := r.freshTarget(t, "transferConflictTarget", 1); f != nil && r.seedForeignMode(f.Path, false) {
+				r.faulted = true
+				verifkit.Class("directed:transfer-time-conflict")
+				r.note("directed transferConflict on %s (un-indexed foreign file at the hub path)", f.Path)
+				r.run(t, false)
+			}
 		}
 		r.check("after " + act)
 	}
